@@ -11,6 +11,7 @@
   false without the repair.
 -/
 import Koreo.Lemmas.FunctionTest
+import Koreo.Lemmas.MockApi
 import Koreo.Gen.FtConsts
 
 namespace Koreo.C19
@@ -316,6 +317,110 @@ theorem return_on_non_ok_fails (e : JVal) (r : FnResult) (h : outCls r.out ≠ 0
     verdict (.ret e) r = false := by
   simp only [verdict, returnVerdict]
   cases hr : r.out <;> simp_all [outCls]
+
+/-! ## the verdict over the conversation the Function had with the per-case mock (`Koreo/MockApi.lean`)
+
+`Effect` above is what the case's `MockApi` holds after the reconcile.  `Mock.effectOf cur cs` says what
+that is for a conversation `cs` (GET / write / DELETE) with a mock created over the case's resource
+`cur`: the theorems below tie the verdict to the REQUESTS, so that "the object sent" has one meaning —
+the body, for a patch laid over the case's own resource with every top-level key the body names
+replaced.  Nothing below the top level of the live object (its `metadata.uid`, foreign labels,
+finalizers, …) is part of it unless the body says so. -/
+
+/-- expectResource over a conversation: the outcome is a Retry and the last mutating request was
+    a DELETE and the (normalised) expectation equals `{}`, or a write and the expectation equals the
+    body over the case's resource (`Mock.merged`), both normalised -/
+theorem conversation_resource_pass_iff (e : JVal) (h : DirectivesWF e) (cur : Option JVal)
+    (cs : List Mock.Call) (out : Out) :
+    verdict (.resource e) ⟨out, Mock.effectOf cur cs⟩ = true ↔
+      (∃ d m, out = .retry d m) ∧
+      ((Mock.lastMutation cs = some .delete ∧ EqMod (stripLastApplied e) (.obj [])) ∨
+       ∃ body, Mock.lastMutation cs = some (.write body) ∧
+         EqMod (stripLastApplied e) (stripLastApplied (Mock.merged cur body))) := by
+  rw [resource_pass_iff e _ h]
+  have h0 : stripLastApplied (.obj []) = .obj [] := rfl
+  cases hl : Mock.lastMutation cs with
+  | none => simp [Mock.effectOf, hl, Effect.materialized]
+  | some c =>
+    cases c with
+    | get => simp [Mock.effectOf, hl, Effect.materialized]
+    | delete => simp [Mock.effectOf, hl, Effect.materialized, h0]
+    | write b => simp [Mock.effectOf, hl, Effect.materialized]
+
+/-- a conversation without a mutating request never satisfies an expectResource, whatever the case's
+    resource holds (an existing object is not "a create or patch was attempted") -/
+theorem conversation_of_reads_fails (e : JVal) (cur : Option JVal) (cs : List Mock.Call) (out : Out)
+    (hr : cs.any Mock.Call.isMutation = false) :
+    verdict (.resource e) ⟨out, Mock.effectOf cur cs⟩ = false := by
+  have hl := (Mock.lastMutation_none_iff cs).mpr hr
+  simp [verdict, resourceVerdict, Mock.effectOf, hl, Effect.materialized]
+
+/-- PATCH (the case has a non-empty resource `b`; the body is a JSON object with unique keys — a Python
+    dict): in the object the assertion is judged against, a key the body names has the BODY's value,
+    whole; a key the body does not name has the live object's value -/
+theorem patch_effect_lookup (b o : List (String × JVal)) (cs : List Mock.Call)
+    (hb : b.isEmpty = false) (hnd : (keys o).Nodup)
+    (hl : Mock.lastMutation cs = some (.write (.obj o))) :
+    ∃ l, Mock.effectOf (some (.obj b)) cs = .wrote (.obj l) ∧
+      (∀ k v, lookup k o = some v → lookup k l = some v) ∧
+      (∀ k, lookup k o = none → lookup k l = lookup k b) := by
+  refine ⟨Mock.mergeTop b o, ?_, ?_, ?_⟩
+  · simp [Mock.effectOf, hl, Mock.merged, truthyO, JVal.truthy, hb]
+  · intro k v hk
+    exact Mock.lookup_mergeTop_in k v o b hnd hk
+  · intro k hk
+    exact Mock.lookup_mergeTop_notin k o b hk
+
+/-- … in particular `metadata` is the map the Function sent: no member of the live object's metadata
+    (uid, resourceVersion, labels or finalizers put there by someone else) is carried into the object
+    that expectResource is compared with -/
+theorem patch_metadata_is_the_bodys (b o : List (String × JVal)) (md : JVal) (cs : List Mock.Call)
+    (hb : b.isEmpty = false) (hnd : (keys o).Nodup)
+    (hl : Mock.lastMutation cs = some (.write (.obj o))) (hm : lookup "metadata" o = some md) :
+    ∃ l, Mock.effectOf (some (.obj b)) cs = .wrote (.obj l) ∧ lookup "metadata" l = some md := by
+  obtain ⟨l, h1, h2, _⟩ := patch_effect_lookup b o cs hb hnd hl
+  exact ⟨l, h1, h2 _ _ hm⟩
+
+/-- CREATE (no resource, or `{}`): the object judged is the body itself -/
+theorem create_effect_is_body (cur : Option JVal) (body : JVal) (cs : List Mock.Call)
+    (hc : truthyO cur = false) (hl : Mock.lastMutation cs = some (.write body)) :
+    Mock.effectOf cur cs = .wrote body := by
+  simp [Mock.effectOf, hl, Mock.merged, hc]
+
+/-- a live object with foreign metadata (uid, an injected label), a status, and a drifted spec … -/
+def liveObject : JVal :=
+  .obj [("apiVersion", .str "v1"), ("kind", .str "K"),
+        ("metadata", .obj [("name", .str "n"), ("namespace", .str "ns"), ("uid", .str "5c1f"),
+          ("labels", .obj [("app", .str "a"), ("injected-by", .str "mesh")]),
+          ("annotations", .obj [(Exact.lastApplied, .str "{…}")])]),
+        ("spec", .obj [("replicas", .int 1)]), ("status", .obj [("ready", .bool true)])]
+/-- … the patch the Function sends for it … -/
+def patchBody : JVal :=
+  .obj [("apiVersion", .str "v1"), ("kind", .str "K"),
+        ("metadata", .obj [("name", .str "n"), ("namespace", .str "ns"),
+          ("labels", .obj [("app", .str "a")]),
+          ("annotations", .obj [(Exact.lastApplied, .str "{…}")])]),
+        ("spec", .obj [("replicas", .int 3)])]
+/-- … and the truthful expectation with a hole for the metadata and the status -/
+def patchExpectation (md : List (String × JVal)) (rest : List (String × JVal)) : JVal :=
+  .obj ([("apiVersion", .str "v1"), ("kind", .str "K"), ("metadata", .obj md),
+         ("spec", .obj [("replicas", .int 3)])] ++ rest)
+
+/-- the assertion equal to (body over the live object, top-level replace) passes — with the untouched
+    `status` of the live object, which the body does not name; listing a metadata member that was never
+    sent (the uid, the injected label, both), or leaving the status out, fails -/
+theorem patch_verdicts_on_foreign_metadata :
+    let conv := [Mock.Call.get, Mock.Call.write patchBody]
+    let r : FnResult := ⟨.retry 30 none, Mock.effectOf (some liveObject) conv⟩
+    let sentMd := [("name", JVal.str "n"), ("namespace", .str "ns"), ("labels", .obj [("app", .str "a")])]
+    let status := [("status", JVal.obj [("ready", .bool true)])]
+    verdict (.resource (patchExpectation sentMd status)) r = true ∧
+    verdict (.resource (patchExpectation (sentMd ++ [("uid", .str "5c1f")]) status)) r = false ∧
+    verdict (.resource (patchExpectation [("name", .str "n"), ("namespace", .str "ns"),
+      ("labels", .obj [("app", .str "a"), ("injected-by", .str "mesh")])] status)) r = false ∧
+    verdict (.resource (patchExpectation [("name", .str "n"), ("namespace", .str "ns"), ("uid", .str "5c1f"),
+      ("labels", .obj [("app", .str "a"), ("injected-by", .str "mesh")])] status)) r = false ∧
+    verdict (.resource (patchExpectation sentMd [])) r = false := by decide
 
 /-! ## F8 and F9 witnesses (corpus/C19) -/
 
